@@ -1011,9 +1011,9 @@ theorem maskOf_length [Zero α] (t : Table α) (hwf : t.WF) (ax : Axis) (layout 
 /-- what the installation step of `Table.filter` builds from the kernel's output is the specified table -/
 theorem install_eq [Zero α] (t : Table α) (hwf : t.WF) (ax : Axis) (mask : List Bool) :
     (match ax with
-     | .obs => ({ t with obs := filterMask (t.ids .obs) mask, omd := (t.md .obs).map (filterMask · mask),
+     | .obs => ({ t with obs := filterMask (t.ids .obs) mask, omd := normMd ((t.md .obs).map (filterMask · mask)),
                          rows := filterMask (vecs t .obs) mask } : Table α)
-     | .samp => { t with samp := filterMask (t.ids .samp) mask, smd := (t.md .samp).map (filterMask · mask),
+     | .samp => { t with samp := filterMask (t.ids .samp) mask, smd := normMd ((t.md .samp).map (filterMask · mask)),
                          rows := transposeGrid t.obs.length (filterMask (vecs t .samp) mask) }) =
     filterAxis t mask ax := by
   cases ax with
@@ -1213,7 +1213,48 @@ theorem filterAxis_other_md (t : Table α) (mask : List Bool) (ax : Axis) :
     (filterAxis t mask ax).md ax.other = t.md ax.other := by cases ax <;> rfl
 
 theorem filterAxis_md (t : Table α) (mask : List Bool) (ax : Axis) :
-    (filterAxis t mask ax).md ax = (t.md ax).map (filterMask · mask) := by cases ax <;> rfl
+    (filterAxis t mask ax).md ax = normMd ((t.md ax).map (filterMask · mask)) := by cases ax <;> rfl
+
+theorem normMd_eq_some (m : Option (List Md)) (l : List Md) (h : normMd m = some l) : m = some l := by
+  cases m with
+  | none => simp [normMd] at h
+  | some l' =>
+    simp only [normMd] at h
+    split at h
+    · cases h
+    · exact h
+
+theorem lookupBy_mem {β : Type} (ids : List Id) (xs : List β) (id : Id) (x : β) (h : lookupBy ids xs id = some x) :
+    x ∈ xs := by
+  induction ids generalizing xs with
+  | nil => cases xs <;> simp [lookupBy] at h
+  | cons a as ih =>
+    cases xs with
+    | nil => simp [lookupBy] at h
+    | cons y ys =>
+      by_cases he : a = id
+      · simp only [lookupBy, he, if_true, Option.some.injEq] at h
+        subst h; exact List.mem_cons_self
+      · simp only [lookupBy, he, if_false] at h
+        exact List.mem_cons_of_mem _ (ih ys h)
+
+/-- dropping an all-empty metadata tuple does not change any canonical entry -/
+theorem mdCanon_normMd (m : Option (List Md)) (ids : List Id) (id : Id) :
+    mdCanon ((normMd m).bind (fun l => lookupBy ids l id)) = mdCanon (m.bind (fun l => lookupBy ids l id)) := by
+  cases m with
+  | none => rfl
+  | some l =>
+    simp only [normMd]
+    split
+    · rename_i hall
+      simp only [Option.bind_none, Option.bind_some, mdCanon, Option.getD_none]
+      cases hlk : lookupBy ids l id with
+      | none => rfl
+      | some e =>
+        have := List.all_eq_true.mp hall e (lookupBy_mem ids l id e hlk)
+        simp only [Option.getD_some]
+        exact (List.isEmpty_iff.mp this).symm
+    · rfl
 
 theorem filterAxis_ttype (t : Table α) (mask : List Bool) (ax : Axis) :
     (filterAxis t mask ax).ttype = t.ttype := by cases ax <;> rfl
@@ -1235,14 +1276,17 @@ theorem filterAxis_vec? (t : Table α) (mask : List Bool) (ax : Axis) (hn : (t.i
     rw [← lookupBy_eq_getElem? _ _ _ hm, ← lookupBy_eq_getElem? _ _ _ hmem]
     exact lookupBy_filterMask t.samp r mask id hn hm
 
-/-- a kept ID keeps its metadata -/
+/-- a kept ID keeps its metadata (canonically: an absent tuple ≡ an empty entry) -/
 theorem filterAxis_mdOf? (t : Table α) (mask : List Bool) (ax : Axis) (hn : (t.ids ax).Nodup) (id : Id)
-    (hm : id ∈ filterMask (t.ids ax) mask) : (filterAxis t mask ax).mdOf? ax id = t.mdOf? ax id := by
+    (hm : id ∈ filterMask (t.ids ax) mask) :
+    mdCanon ((filterAxis t mask ax).mdOf? ax id) = mdCanon (t.mdOf? ax id) := by
   unfold Table.mdOf?
-  rw [filterAxis_md, filterAxis_ids]
+  rw [filterAxis_md, filterAxis_ids, mdCanon_normMd]
   cases t.md ax with
   | none => rfl
-  | some m => exact lookupBy_filterMask (t.ids ax) m mask id hn hm
+  | some m =>
+    simp only [Option.map_some, Option.bind_some]
+    rw [lookupBy_filterMask (t.ids ax) m mask id hn hm]
 
 theorem wfb_of_wf (t : Table α) (h : t.WF) : t.wfb = true := by
   obtain ⟨h1, h2, h3, h4⟩ := h
@@ -1267,7 +1311,8 @@ theorem filterAxis_wf (t : Table α) (h : t.WF) (mask : List Bool) (ax : Axis)
     · intro r hr
       exact h2 r (mem_filterMask _ _ _ hr)
     · intro m hmd
-      simp only [filterAxis, Option.map_eq_some_iff] at hmd
+      have hmd := normMd_eq_some _ _ hmd
+      simp only [Option.map_eq_some_iff] at hmd
       obtain ⟨m0, hm0, rfl⟩ := hmd
       have := h3 m0 hm0
       show (filterMask m0 mask).length = (filterMask t.obs mask).length
@@ -1284,7 +1329,8 @@ theorem filterAxis_wf (t : Table α) (h : t.WF) (mask : List Bool) (ax : Axis)
       show (filterMask r0 mask).length = (filterMask t.samp mask).length
       rw [length_filterMask _ _ (by omega), length_filterMask _ _ (by omega)]
     · intro m hmd
-      simp only [filterAxis, Option.map_eq_some_iff] at hmd
+      have hmd := normMd_eq_some _ _ hmd
+      simp only [Option.map_eq_some_iff] at hmd
       obtain ⟨m0, hm0, rfl⟩ := hmd
       have := h4 m0 hm0
       show (filterMask m0 mask).length = (filterMask t.samp mask).length
